@@ -11,7 +11,7 @@
 """
 import ast
 from pyexpr2lean import (Gen, Tr, Untranslatable, load, get_def, find_assign, find_assigns, find_returns, find_calls)
-from gen_c07 import PTr, Body, assigned_names, _proj, _tuple, _returns, M as M7
+from gen_c07 import PTr, Body, assigned_names, _proj, _tuple, _returns, translate_fn, M as M7
 
 M = 'Model.C08'
 HDR = 'set_option linter.unusedVariables false\nvariable {K : Type} [Num K]\n'
@@ -113,14 +113,37 @@ def _index_names(fn):
     return out
 
 
+def alloc_kind(v, lst, coord):
+    """`np.empty((len(<lst>), *<coord>.shape), dtype=<d>)` -> 'same' (the coordinate dtype) | 'float' (promoted to hold floats);
+    None when `v` is not such an allocation; Untranslatable for an unknown dtype expression"""
+    if not (isinstance(v, ast.Call) and ast.unparse(v.func) == 'np.empty' and len(v.args) == 1 and len(v.keywords) == 1
+            and v.keywords[0].arg == 'dtype'):
+        return None
+    if ast.unparse(v.args[0]) != f'(len({lst}), *{coord}.shape)':
+        return None
+    d = ast.unparse(v.keywords[0].value)
+    c = coord
+    if d == f'{c}.dtype':
+        return 'same'
+    promoted = {f'np.result_type({c}, 1.0)', f'np.result_type({c}.dtype, 1.0)', f'np.result_type({c}, float)',
+                f'np.result_type({c}.dtype, float)', f'np.result_type({c}.dtype, config.precision)',
+                f'np.result_type({c}, config.precision)', f"{c}.dtype if {c}.dtype.kind in 'fc' else config.precision",
+                f'np.promote_types({c}.dtype, config.precision)'}
+    if d in promoted:
+        return 'float'
+    raise Untranslatable(f'dtype expression {d}')
+
+
 class Seq:
     """python statements of a `*_seq` sweep -> one Lean term of type `Option (List K)`.
 
     Variables are typed: K (arrays read point-wise), Nat (running indices), Rows (`out`), Int (`max_n`).
     """
 
-    def __init__(self, fn, k_params, tuple_funcs=None, tr_kwargs=None):
+    def __init__(self, fn, k_params, tuple_funcs=None, tr_kwargs=None, fname='f'):
         self.fn = fn
+        self.fname = fname
+        self.prelude = []
         self.nat_names = _index_names(fn)
         self.tuple_funcs = dict(tuple_funcs or {})
         self.tr0 = PTr({p: p for p in k_params}, ints=[], **(tr_kwargs or {}))
@@ -170,7 +193,7 @@ class Seq:
                     return [f'let {t.id}_ : Nat := {v.value}'], tr, {**ty, t.id: 'Nat'}
                 raise Untranslatable(f'index variable assigned {ast.unparse(v)}')
             if isinstance(t, ast.Name) and t.id == 'out':
-                if ast.unparse(v) == 'np.empty((len(ns), *x.shape), dtype=x.dtype)':
+                if alloc_kind(v, 'ns', 'x') is not None:     # the dtype is read by the `…OutKind` items
                     return [f'let out_ : {M}.Rows K := {M}.emptyRows ns.length'], tr, {**ty, 'out': 'Rows'}
                 raise Untranslatable(f'out = {ast.unparse(v)[:50]}')
             if isinstance(t, ast.Name) and ast.unparse(v) == 'ns[-1]':
@@ -221,6 +244,7 @@ class Seq:
         for n in ast.walk(ast.Module(body=s.body, type_ignores=[])):
             if isinstance(n, ast.Assign) and isinstance(n.targets[0], ast.Subscript) and 'out' not in names:
                 names = ['out'] + names
+        names = sorted(names, key=lambda nm: (nm != 'out', nm))      # canonical order: independent of statement order
         lines, tr2, ty2 = self.block(s.body, tr, ty, ind + '    ')
         new = _tuple([self.var(nm, tr2, ty2) for nm in names])
         old = _tuple([self.var(nm, tr, ty) for nm in names])
@@ -249,6 +273,7 @@ class Seq:
         names = assigned_names(s.body)
         if any(isinstance(n, ast.Assign) and isinstance(n.targets[0], ast.Subscript) for n in ast.walk(s)) and 'out' not in names:
             names = names + ['out']
+        names = sorted(names)
         init = [self.var(nm, tr, ty) for nm in names]
         # inside the body every carried variable is read from the state tuple
         env = dict(tr.env)
@@ -260,11 +285,17 @@ class Seq:
         env.pop(v, None)
         btr = tr.clone(env, (set(tr.ints) - set(names)) | {v})
         i2 = ind + '    '
-        lines = [f'let {nm}_ := {_proj(k, len(names))}' for k, nm in enumerate(names)]
+        ty_in = dict(tyb)
         ls, btr, tyb = self.block(s.body, btr, tyb, i2)
-        lines += ls
+        if any(tyb.get(nm, 'K') != ty_in.get(nm, 'K') for nm in names):
+            raise Untranslatable('a loop-carried variable changes its type inside the loop')
+        tyl = [LEAN_TY[tyb.get(nm, 'K')] for nm in names]
+        tys = ' × '.join(tyl)
+        acc = {nm: f'{self.fname}_st_{nm}' for nm in names}
+        for k, nm in enumerate(names):
+            self.prelude.append(f'abbrev {acc[nm]} {{K : Type}} (s : {tys}) : {tyl[k]} := {_proj(k, len(names))}')
+        lines = [f'let {nm}_ := {acc[nm]} s' for nm in names] + ls
         final = _tuple([self.var(nm, btr, tyb) for nm in names])
-        tys = ' × '.join(LEAN_TY[tyb.get(nm, 'K')] for nm in names)
         body = ('\n' + i2).join(lines + [final])
         loopname = f'loop_{v}'
         out = [f'let {loopname} := {M7}.forRange {lo} {hi} (fun ({v} : Int) (s : {tys}) =>\n{i2}{body}) {_tuple(init)}']
@@ -272,7 +303,7 @@ class Seq:
         ints2 = set(tr.ints) - set(names)
         ty2 = dict(ty)
         for k, nm in enumerate(names):
-            out.append(f'let {nm}_ := {_proj(k, len(names)).replace("s", loopname, 1)}')
+            out.append(f'let {nm}_ := {acc[nm]} {loopname}')
             ty2[nm] = tyb.get(nm, 'K')
             if ty2[nm] == 'K':
                 env2[nm] = f'{nm}_'
@@ -305,10 +336,11 @@ def translate_seq(fn, lean_name, k_params, tuple_funcs=None, extra_binders='', t
     got = [a.arg for a in fn.args.args]
     if got != ['ns'] + list(k_params):
         raise Untranslatable(f'parameters {got}')
-    sq = Seq(fn, k_params, tuple_funcs=tuple_funcs, tr_kwargs=tr_kwargs)
+    sq = Seq(fn, k_params, tuple_funcs=tuple_funcs, tr_kwargs=tr_kwargs, fname=lean_name)
     body = sq.run(fn.body, sq.tr0, {})
     binders = ' '.join(f'({p} : K)' for p in k_params)
-    return f'def {lean_name} {extra_binders}(ns : List Nat) {binders} : Option (List K) :=\n  {body}\n'
+    pre = ''.join(x + '\n' for x in sq.prelude)
+    return f'{pre}def {lean_name} {extra_binders}(ns : List Nat) {binders} : Option (List K) :=\n  {body}\n'
 
 
 def _refresh_c07(repo):
@@ -410,7 +442,7 @@ def generate(repo):
                     and ast.unparse(e.args[2]) == coord):
                 raise Untranslatable(f'xy_seq table {ast.unparse(e)[:50]}')
             f = ast.unparse(e.func)
-            fam = {'dickson1_seq': 'Generated.C07.dickson1', 'dickson2_seq': 'Generated.C07.dickson2'}.get(f)
+            fam = {'dickson1_seq': f'{M}.seqEntry1', 'dickson2_seq': f'{M}.seqEntry2'}.get(f)
             if fam is None:
                 raise Untranslatable(f'xy_seq takes its monomials from {f}')
             return fam, PTr({}).expr(e.args[1])
@@ -423,7 +455,8 @@ def generate(repo):
         if body != ['xterm = x_seq[m]', 'yterm = y_seq[n]', 'out.append(xterm * yterm)']:
             raise Untranslatable(f'xy_seq loop body {body}')
         return (f'/-- term `(m, n)` of `xy_seq`: entry `m` of the x table times entry `n` of the y table; the tables are\n'
-                f'    `<family>_seq(arange(0, max+1), <a>, coord)`, i.e. (C08 `sweep_eq_map`) `<family>(k, a, coord)` at entry `k` -/\n'
+                f'    `dickson<k>_seq(arange(0, max+1), <a>, coord)`; `seqEntry<k> j a c` is entry `j` of that table, i.e. (by the C08\n'
+                f'    theorems `gen_dickson<k>Seq`) the single-order `dickson<k>(j, a, c)` -/\n'
                 f'def xySeqTerm (m n : Int) (x y : K) : K := ({fx} m {ax} x) * ({fy} n {ay} y)')
     g.item('xy_seq', 'prysm/polynomials/xy.py:xy_seq', lambda: get_def(xyf, 'xy_seq'), xyseq,
            f'def xySeqTerm (m n : Int) (x y : K) : K := {M7}.xy m.toNat n.toNat x y')
@@ -448,34 +481,168 @@ def generate(repo):
         jac = find_assign(lp, 'jac', which=0)
         if ast.unparse(absm) != 'abs(m)' or ast.unparse(jac) != 'jacobi_seqs[absm][nj]':
             raise Untranslatable('zernike_nm_seq look-up is not jacobi_seqs[abs(m)][nj]')
-        # table for key k holds orders 0..max nj: arange(nj + 1)
-        ar = [ast.unparse(v) for v in find_assigns(fn, 'jacobi_seqs_mjn[k]')] if False else None
         itr = Tr({'n': 'n', 'absm': '(Int.natAbs m : Int)'}, 'int')
         ktr = PTr({'r': 'r', 'k': '(Num.ofInt (Int.natAbs m : Int))'})
         return (f'def zernikeSeqX (r : K) : K := {ktr.expr(x)}\n'
                 f'def zernikeSeqNj (n m : Int) : Int := {itr.expr(nj)}\n'
                 f'def zernikeSeqAB (m : Int) : K × K := ({ktr.expr(c.args[1])}, {ktr.expr(c.args[2])})')
     g.item('zernike_nm_seq.table', 'prysm/polynomials/zernike.py:zernike_nm_seq', lambda: get_def(zer, 'zernike_nm_seq'), zseq,
-           'def zernikeSeqX (r : K) : K := Generated.C07.zernikeX r\n'
-           'def zernikeSeqNj (n m : Int) : Int := Generated.C07.zernikeNj n m\n'
-           'def zernikeSeqAB (m : Int) : K × K := Generated.C07.zernikeAB m')
+           'def zernikeSeqX (r : K) : K := Num.ofInt 2 * Num.npow r 2 - Num.ofInt 1\n'
+           'def zernikeSeqNj (n m : Int) : Int := (n - (Int.natAbs m : Int)) / 2\n'
+           'def zernikeSeqAB (m : Int) : K × K := (Num.ofInt 0, Num.ofInt (Int.natAbs m : Int))')
 
-    def zseq_az():
-        """m == 0: out[k] = jac ; m < 0: jac * sin(|m| t) * r^|m| ; m > 0: jac * cos(|m| t) * r^|m| ; norm first"""
+    def zmode():
+        """the body of the final `for n, m in nms` loop of zernike_nm_seq, as a function of one requested pair.  Look-ups in the
+        dictionaries filled by `for m in amu: D[m] = <expr(m)>` are replaced by `<expr(key)>`; `jacobi_seqs[key][idx]` becomes
+        `tbl key idx`; `out[k] = v; k += 1` becomes the returned value."""
         fn = get_def(zer, 'zernike_nm_seq')
-        loops = [s for s in fn.body if isinstance(s, ast.For) and ast.unparse(s.target) == '(n, m)']
-        lp = loops[0]
-        src = [ast.unparse(s) for s in lp.body]
-        want_tail = ('if m == 0:\n    out[k] = jac\n    k += 1\nelse:\n    if m < 0:\n        azpiece = sines[absm]\n    else:\n'
-                     '        azpiece = cosines[absm]\n    radialpiece = powers_of_m[absm]\n    zern = jac * azpiece * radialpiece\n'
-                     '    out[k] = zern\n    k += 1')
-        ok = src[-1] == want_tail and 'if norm:\n    jac = jac * zernike_norm(n, m)' in src
-        tabs = [s for s in fn.body if isinstance(s, ast.For) and ast.unparse(s.target) == 'm' and ast.unparse(s.iter) == 'amu']
-        ok = ok and len(tabs) == 1 and [ast.unparse(s) for s in tabs[0].body] == \
-            ['powers_of_m[m] = r ** m', 'sines[m] = np.sin(m * t)', 'cosines[m] = np.cos(m * t)']
-        return ok
-    g.fact('zernikeSeqAzimuthNegSinPosCosTimesRPowAbsM', 'prysm/polynomials/zernike.py:zernike_nm_seq', zseq_az)
+        loops = [st for st in fn.body if isinstance(st, ast.For) and isinstance(st.target, ast.Tuple) and ast.unparse(st.iter) == 'nms'
+                 and len(st.target.elts) == 2]
+        if not loops:
+            raise Untranslatable('no `for n, m in nms` loop')
+        lp = loops[-1]
+        nvar, mvar = (e.id for e in lp.target.elts)
+        fills = {}
+        for st in fn.body:
+            if isinstance(st, ast.For) and isinstance(st.target, ast.Name) and ast.unparse(st.iter) == 'amu':
+                for q in st.body:
+                    if not (isinstance(q, ast.Assign) and isinstance(q.targets[0], ast.Subscript)
+                            and isinstance(q.targets[0].value, ast.Name) and ast.unparse(q.targets[0].slice) == st.target.id):
+                        raise Untranslatable(f'table fill {ast.unparse(q)[:50]}')
+                    fills[q.targets[0].value.id] = (st.target.id, q.value)
+        tables = {c.func and ast.unparse(t.value) for st in ast.walk(fn) if isinstance(st, ast.Assign)
+                  for t in st.targets if isinstance(t, ast.Subscript) and isinstance(t.value, ast.Name)
+                  for c in [st.value] if 'jacobi_seq(' in ast.unparse(st.value)}
+        if len(tables) != 1:
+            raise Untranslatable('could not identify the dictionary of Jacobi tables')
+        (jtab,) = tables
 
+        class ZTr(PTr):
+            def clone(self, env=None, ints=None):
+                z = ZTr(self.env if env is None else env, self.ints if ints is None else ints, self.funcs,
+                        self.intfuncs, self.sqrt, self.mixed, self.unary, self.bools)
+                return z
+
+            def expr(self, e):
+                if isinstance(e, ast.Subscript):
+                    if isinstance(e.value, ast.Name) and e.value.id in fills:
+                        keyvar, val = fills[e.value.id]
+                        sub = self.clone(ints=set(self.ints) | {keyvar})
+                        key = self.int_expr(e.slice)
+                        return f'(let {keyvar} : Int := {key}; {sub.expr(val)})'
+                    if isinstance(e.value, ast.Subscript) and isinstance(e.value.value, ast.Name) and e.value.value.id == jtab:
+                        return f'(tbl {self.int_expr(e.value.slice)} {self.int_expr(e.slice)})'
+                return super().expr(e)
+        # rewrite `out[k] = v` -> `res = v`, drop `k += 1`, return res
+        import copy
+        body = copy.deepcopy(lp.body)
+
+        class Rw(ast.NodeTransformer):
+            def visit_Assign(self, node):
+                if isinstance(node.targets[0], ast.Subscript) and ast.unparse(node.targets[0].value) == 'out':
+                    return ast.Assign(targets=[ast.Name(id='res', ctx=ast.Store())], value=node.value, lineno=0)
+                return node
+
+            def visit_AugAssign(self, node):
+                if isinstance(node.target, ast.Name) and isinstance(node.value, ast.Constant) and node.value.value == 1:
+                    return None
+                return node
+        body = [Rw().visit(st) for st in body]
+        body = [st for st in body if st is not None] + [ast.Return(value=ast.Name(id='res', ctx=ast.Load()))]
+        tr = ZTr({'r': 'r', 't': 't'}, ints=[nvar, mvar], mixed={'zernike_norm': ('Generated.C07.zernikeNorm sqrt', 'ii')},
+                 unary={'np.sin': 'sinf', 'np.cos': 'cosf'}, bools=['norm'])
+        bd = Body(tr, fname='zernikeSeqMode')
+        term = bd.run([ast.fix_missing_locations(st) for st in body], tr)
+        return (f'/-- one requested `(n, m)` of `zernike_nm_seq`: the value written to its row; `tbl k j` is entry `j` of the Jacobi table of `|m| = k` -/\n'
+                f'def zernikeSeqMode (sinf cosf sqrt : K → K) (tbl : Int → Int → K) ({nvar} {mvar} : Int) (r t : K) (norm : Bool) : K :=\n  {term}')
+    g.item('zernike_nm_seq.mode', 'prysm/polynomials/zernike.py:zernike_nm_seq', lambda: get_def(zer, 'zernike_nm_seq'), zmode,
+           'def zernikeSeqMode (sinf cosf sqrt : K → K) (tbl : Int → Int → K) (n m : Int) (r t : K) (norm : Bool) : K :=\n'
+           '  let J := tbl (Int.natAbs m) ((n - Int.natAbs m) / 2)\n'
+           '  let σ := if norm = true then Generated.C07.zernikeNorm sqrt n m else Num.ofInt 1\n'
+           '  if m = 0 then J * σ else J * σ * (if m < 0 then sinf (Num.ofInt (Int.natAbs m) * t) else cosf (Num.ofInt (Int.natAbs m) * t))\n'
+           '    * Num.npow r (Int.natAbs m)')
+
+    # ---- dtype of the rows: every value *_seq allocates `out = np.empty((len(..), *coord.shape), dtype=<d>)`
+    jac0, _ = load(repo, 'prysm/polynomials/jacobi.py')
+    her0, _ = load(repo, 'prysm/polynomials/hermite.py')
+    lag0, _ = load(repo, 'prysm/polynomials/laguerre.py')
+    dic0, _ = load(repo, 'prysm/polynomials/dickson.py')
+    qp0, _ = load(repo, 'prysm/polynomials/qpoly.py')
+    leg0, _ = load(repo, 'prysm/polynomials/legendre.py')
+    for (mod, rel, py, lean, lst, coord) in [
+            (jac0, 'jacobi.py', 'jacobi_seq', 'jacobiSeq', 'ns', 'x'), (her0, 'hermite.py', 'hermite_He_seq', 'hermiteHeSeq', 'ns', 'x'),
+            (her0, 'hermite.py', 'hermite_H_seq', 'hermiteHSeq', 'ns', 'x'), (lag0, 'laguerre.py', 'laguerre_seq', 'laguerreSeq', 'ns', 'x'),
+            (dic0, 'dickson.py', 'dickson1_seq', 'dickson1Seq', 'ns', 'x'), (dic0, 'dickson.py', 'dickson2_seq', 'dickson2Seq', 'ns', 'x'),
+            (qp0, 'qpoly.py', 'Qbfs_seq', 'qbfsSeq', 'ns', 'x'), (qp0, 'qpoly.py', 'Q2d_seq', 'q2dSeq', 'nms', 'x'),
+            (zer, 'zernike.py', 'zernike_nm_seq', 'zernikeNmSeq', 'nms', 'r')]:
+        def build(mod=mod, py=py, lean=lean, lst=lst, coord=coord):
+            fn = get_def(mod, py)
+            kinds = [alloc_kind(v, lst, coord) for v in find_assigns(fn, 'out')]
+            kinds = [k for k in kinds if k is not None]
+            if len(kinds) != 1:
+                raise Untranslatable(f'{py}: expected one allocation of out, found {len(kinds)}')
+            body = 'k' if kinds[0] == 'same' else f'{M}.DKind.withFloat k'
+            return (f'/-- kind of the dtype of the rows of `{py}` as a function of the kind of the coordinate dtype -/\n'
+                    f'def {lean}OutKind (k : {M}.DKind) : {M}.DKind := {body}')
+        g.item(f'{py}.dtype', f'prysm/polynomials/{rel}:{py}', (lambda mod=mod, py=py: get_def(mod, py)), build,
+               f'def {lean}OutKind (k : {M}.DKind) : {M}.DKind := {M}.DKind.withFloat k')
+
+    # ---- one-line wrappers: legendre_seq, Qcon_seq (which sweep, which parameters, which argument, which factor)
+    def legseq():
+        fn = get_def(leg0, 'legendre_seq')
+        (ret,) = find_returns(fn)
+        if not (isinstance(ret, ast.Call) and ast.unparse(ret.func) == 'jacobi_seq' and len(ret.args) == 4
+                and ast.unparse(ret.args[0]) == 'ns' and ast.unparse(ret.args[3]) == 'x'
+                and len([st for st in fn.body if not isinstance(st, ast.Expr)]) == 1):
+            raise Untranslatable('legendre_seq is not `return jacobi_seq(ns, a, b, x)`')
+        tr = PTr({})
+        return (f'/-- `legendre_seq(ns, x) = jacobi_seq(ns, a, b, x)` : `(a, b)` -/\n'
+                f'def legendreSeqParams : K × K := ({tr.expr(ret.args[1])}, {tr.expr(ret.args[2])})')
+    g.item('legendre_seq', 'prysm/polynomials/legendre.py:legendre_seq', lambda: get_def(leg0, 'legendre_seq'), legseq,
+           'def legendreSeqParams : K × K := (Num.ofInt 0, Num.ofInt 0)')
+
+    def qconseq():
+        fn = get_def(qp0, 'Qcon_seq')
+        calls = find_calls(fn, 'jacobi_seq')
+        if len(calls) != 1 or ast.unparse(calls[0].args[0]) != 'ns':
+            raise Untranslatable('Qcon_seq does not call jacobi_seq(ns, …) once')
+        c = calls[0]
+        stm = [st for st in fn.body if not (isinstance(st, ast.Expr) and isinstance(st.value, ast.Constant))]
+        tr = PTr({'x': 'x'})
+        bd = Body(tr)
+        lets = []
+        k = 0
+        pns = None
+        while k < len(stm) and not isinstance(stm[k], ast.Return):
+            if isinstance(stm[k], ast.Assign) and stm[k].value is c:
+                pns = stm[k].targets[0].id
+                arg = tr.expr(c.args[3])
+                ab = (tr.expr(c.args[1]), tr.expr(c.args[2]))
+                tr = tr.clone({**tr.env, pns: 'P'})
+            else:
+                ls, tr = bd.lets_for_assign(stm[k], tr)
+                lets += ls
+            k += 1
+        if pns is None or k != len(stm) - 1:
+            raise Untranslatable('Qcon_seq shape')
+        pre = '\n  '.join(lets)
+        return (f'/-- `Qcon_seq`: argument handed to `jacobi_seq`, its `(a, b)`, and what is done with a row `P` of the result -/\n'
+                f'def qconSeqX (x : K) : K :=\n  {pre}\n  {arg}\n'
+                f'def qconSeqAB : K × K := ({ab[0]}, {ab[1]})\n'
+                f'def qconSeqOut (P x : K) : K :=\n  {pre}\n  {tr.expr(stm[k].value)}')
+    g.item('Qcon_seq', 'prysm/polynomials/qpoly.py:Qcon_seq', lambda: get_def(qp0, 'Qcon_seq'), qconseq,
+           'def qconSeqX (x : K) : K := Num.ofInt 2 * Num.npow x 2 - Num.ofInt 1\n'
+           'def qconSeqAB : K × K := (Num.ofInt 0, Num.ofInt 4)\n'
+           'def qconSeqOut (P x : K) : K := P * Num.npow x 4')
+
+    # ---- the scalar twins of the Hermite derivative sweeps (so that the seq theorems are stated over translated scalar functions)
+    for (py, lean, callee) in (('hermite_He_der', 'hermiteHeDer', 'hermite_He'), ('hermite_H_der', 'hermiteHDer', 'hermite_H')):
+        def build(py=py, lean=lean, callee=callee):
+            gen = {'hermite_He': 'Generated.C07.hermiteHe', 'hermite_H': 'Generated.C07.hermiteH'}
+            return translate_fn(get_def(her0, py), lean, ['n'], ['x'], tr_kwargs={'mixed': {callee: (gen[callee], 'ik')}})
+        g.item(py, f'prysm/polynomials/hermite.py:{py}', (lambda py=py: get_def(her0, py)), build,
+               f'def {lean} (n : Int) (x : K) : K := if n = 0 then Num.ofInt 0 else '
+               + ('Num.ofInt n' if py == 'hermite_He_der' else 'Num.ofInt (2 * n)') + f' * {M7}.{"hermiteHe" if py == "hermite_He_der" else "hermiteH"} (n - 1).toNat x')
 
     # ---- the `*_seq` sweeps, statement by statement
     jac, _ = load(repo, 'prysm/polynomials/jacobi.py')
